@@ -190,3 +190,11 @@ Definition empty_scope_closed (A : automaton N cpredicate) : bool :=
       | Ok t => match a_scope t with [] => (match a_scope s with [] => true | _ => false end) || (match a_out t with [] => true | _ => false end) | _ => true end
       | _ => false
       end) (a_out s)) (au_states A).
+
+(** a pattern without constraints (the empty string pattern) is recorded with an empty key list *)
+Definition empty_pattern_keys {K P} (A : automaton K P) (cs : list (list (constraint K P))) : bool :=
+  forallb (fun s =>
+    forallb (fun pk => match nth_error cs (N.to_nat (fst pk)) with
+                       | Some [] => match snd pk with [] => true | _ => false end
+                       | _ => true
+                       end) (a_matches s)) (au_states A).
